@@ -76,6 +76,12 @@ CHECKS = {
   text="Grid: topology {EOA->precompile, EOA->contract->precompile, EOA->contract->contract->precompile} x value attached per hop x {staking.delegate for the signer or for the calling contract with amount 1/mid/all/all+1, staking.undelegate, distribution.withdrawDelegatorRewards, claimRewards, setWithdrawAddress} x pre-state {pending rewards, withdraw address elsewhere, no rewards} x journal-dirty set {none, signer, withdrawer} (396 scenarios) plus control scenarios (value chains, failing hop, self-destruct to other / to self). Oracles: total supply unchanged (self-destruct-to-self: exactly -value); bank, staking and distribution stores equal to the native replay; success/failure agree.",
   note="Gas price 0 (fee flow is C07). Contract callers hold generic staking grants from the signer. Frames that revert are C05's subject.",
   design="DESIGN.md §3 C02"),
+ "C04": dict(
+  technique="exhaustive identity-matrix grid of synthesised call trees through the real DeliverTx with a frame rule on account snapshots, plus explicit-state exploration (DFS, digest dedup) of allowance histories with a per-step allowance rule",
+  engine="E1",
+  text="Part A: {signer directly, contract, nested contract} x 11 state-changing staking / distribution / authorization methods x named account {signer, calling contract, third party, other contract} x grant state {none, signer->caller, third->caller, both} (374 scenarios): after the transaction, funds, stake, unbonding entries, withdraw address and granted authorizations of every account other than the signer and the immediate caller must be unchanged (funds may grow), and staking effects on the signer from a contract need a grant. Part B: every sequence <= 3 (thorough 4) over approve / increaseAllowance / decreaseAllowance / revoke / native grant with validator allow-list or of another message type / spend via a contract to two validators with 4 amounts, failure bubbled or swallowed / jump past expiry: a delegation for the signer happens only under a live grant covering validator and amount, a limited grant is reduced by exactly the amount (deleted at 0), and authorization methods do exact arithmetic.",
+  note="Gas price 0. ICS-20 and ERC-20 precompile legs are not included (no channel fixture; no ERC-20 precompile active at this commit).",
+  design="DESIGN.md §3 C04"),
 }
 
 PENDING = {}
